@@ -78,7 +78,35 @@ def _gen_ties(rng):
     return spec
 
 
+def _gen_keyed(rng):
+    """methods of one rank keyed by disjoint Literals on the first position (3-5 of them; some with a second value
+    condition), a catch-all, and as *inapplicable additions* further Literal methods whose keys no call uses - they
+    may push the group over the size at which the library switches its dispatch strategy"""
+    pool = [0, 1, 2, 3, 4, 7, 1000] if rng.random() < 0.6 else ["a", "ab", "b", "c", "d", "e", "f"]
+    keys = rng.sample(pool, 7)
+    nk = rng.choice([3, 3, 4, 5])
+    seconds = [["L", 0], ["L", "a"], ["L", 1, 2], ["D", "int", "even"], ["D", "object", "truthy"], ["D", "int", "ge3"]]
+
+    def keyed(mid, k):
+        if rng.random() < 0.45:
+            pos = [["L", k], rng.choice(seconds), "object"]
+        else:
+            pos = [["L", k], "object", rng.choice(["int", "MyInt", "int", "object"])]
+        return {"mid": mid, "pos": [{"n": f"a{j}", "t": t} for j, t in enumerate(pos)], "kw": [], "prio": 0, "kind": "leaf"}
+    methods = [keyed(i, k) for i, k in enumerate(keys[:nk])]
+    methods.append({"mid": nk, "pos": [{"n": f"a{j}", "t": "object"} for j in range(3)], "kw": [], "prio": -1, "kind": "leaf"})
+    extras = [keyed(90 + i, k) for i, k in enumerate(keys[5:7])]
+    firsts = [["v", k] for k in keys[:nk]] + [["v", 5], ["v", "zz"]]
+    mids = [["v", 0], ["v", 1], ["v", 2], ["v", 3], ["v", 4], ["v", "a"], ["v", "b"], ["v", ""], ["v", None]]
+    lasts = [["v", 1], ["mi", 2], ["v", "s"], ["v", 2.5]]
+    calls = [{"pos": [rng.choice(firsts), rng.choice(mids), rng.choice(lasts)], "kw": {}} for _ in range(40)]
+    return {"hier": [], "methods": methods, "npos": 3, "flavour": "keyed", "calls": calls, "extras": extras,
+            "perm_seeds": [rng.randrange(1 << 30) for _ in range(4)]}
+
+
 def gen_case(rng, params, idx):
+    if idx % 8 == 7:
+        return _gen_keyed(rng)
     if idx % 4 == 3:
         return _gen_ties(rng)
     flavour = ["static", "union", "dep"][idx % 3]
